@@ -1,4 +1,5 @@
-"""C04 - authentication gates.  spec/AuthJwt.tla, spec/AuthSig.tla, spec/AuthRpc.tla (+ *Gen) -> replay through the
+"""C04 - authentication gates.  spec/AuthJwt.tla, spec/AuthSig.tla, spec/AuthBoth.tla (the two composed on one
+route), spec/AuthRpc.tla (+ *Gen) -> replay through the
 engine-composed HTTP gates (api.Server routes) and the rpc auth interceptors over miniredis."""
 from vlib import core
 
@@ -36,7 +37,14 @@ META = dict(
          "configured keys are 2048 and 1024 bit): short, B-1, B, B+1, 2B, 2B+1, 3B+7 (quick: B, B+1, 2B, 2B+1), reached "
          "with a long HMAC key and a filler attribute and encrypted block-wise with crypto/rsa the way lib/codec/rsa.go "
          "crypt() chunks (1-4 RSA blocks): the verdict never depends on it - a correctly signed multi-block request is "
-         "admitted, each single altered field denies it. AuthRpc.tla: strict/lenient x "
+         "admitted, each single altered field denies it. AuthBoth.tla (INSTANCEs of AuthJwt and AuthSig, "
+         "nothing redefined): route groups that carry BOTH gates (api.WithJwt / WithJwtTransition together with "
+         "api.WithSignature{Strict} on the same AddRoutes): representative token classes x the three JWT configurations x "
+         "unauthorized-callback kinds x server constructions x signed requests (honest under either key at every "
+         "tolerated offset, every single field altered after signing, header that does not decrypt, timestamp outside the "
+         "tolerance) - requests failing none, one or both gates: without a valid token the answer is 401 whatever the "
+         "X-Content-Security header looks like, a valid token with a refused signature gets 403, both valid runs the "
+         "handler with the token's claims. AuthRpc.tla: strict/lenient x "
          "a store that changes between calls (token stored / replaced / deleted, store down / up again) x every "
          "sequence of up to 3 calls over app/token present/empty/absent/matching/differing, unary and stream; a call "
          "may be judged by the store as it is now or by a token seen at an earlier successful lookup (a cache), "
@@ -47,7 +55,8 @@ META = dict(
     note="Trusted: TLC, golang-jwt as token minter, crypto/rsa+hmac as honest client, miniredis, httptest recorder "
          "(a real loopback listener only for the signature cases delivered 'wire'). Not covered: non-strict signature mode and methods other than GET/POST/PUT/DELETE "
          "(the statement is about strict mode and these methods), encrypted bodies (type=1, CryptoHandler), the "
-         "X-Request-Uri override, lib/codec's own rsaEncryptor (client side: the driver encrypts with crypto/rsa), unsigned callbacks, unauthorized callbacks that write a status other than 401, a bare token without 'Bearer ' prefix, iat in "
+         "X-Request-Uri override, lib/codec's own rsaEncryptor (client side: the driver encrypts with crypto/rsa), unsigned callbacks, on routes with both gates the "
+         "key layouts with two route groups, long secrets and wire delivery (driven on signature-only routes), unauthorized callbacks that write a status other than 401, a bare token without 'Bearer ' prefix, iat in "
          "the future, expiry of the authenticator's 5-minute cache (its timing wheel runs on a real ticker), "
          "real redis connection loss (the failing store answers every command with an error). A token without any "
          "time claim may be admitted or rejected (statement silent). Signature timestamps use the real clock: "
@@ -105,7 +114,22 @@ SIG_INVARIANTS = ["AnyTamperDenied", "HonestPasses", "OutsideToleranceDenied", "
                   "OneGroupAsBefore", "ForeignKeyDenied", "OwnGroupOnly", "LengthIrrelevant"]
 
 
+BOTH_INVARIANTS = ["NoTokenIs401", "RunNeedsBoth", "BothValidRuns", "ValidTokenBadSignature403", "StatusBelongsToItsGate",
+                   "ComposedOfTheTwo"]
+
+
+def bothk(ctx):
+    """constants of the composed spec (routes that carry the JWT gate and the strict signature gate)"""
+    q = ctx.quick
+    return dict(BTokens='"Core"', BCfgs=CFGS, BServers=('{"default","chain+use"}' if q else SERVERS), BCallbacks=CALLBACKS,
+                BMethods=('{"GET","POST"}' if q else '{"GET","POST","PUT","DELETE"}'))
+
+
 def gen(ctx, module, name, K, simulate=None, depth=None):
+    if module == "AuthBothGen":
+        # like the signature spec: no history, the enumeration visits exactly the states of the model
+        cfg = core.render_cfg(spec="Spec", constants=K, invariants=BOTH_INVARIANTS + ["Emit"])
+        return ctx.tlc(module, cfg, constants=K, name=name, workers=W, timeout=900).printed
     sig = module == "AuthSigGen"
     # the signature spec has no history: its case enumeration visits exactly the states of the model, so the
     # properties of AuthSig.tla are checked in the same run (ServerIrrelevant/TransportIrrelevant quantify over all
@@ -132,6 +156,8 @@ def run(ctx):
                                     Servers=('{"default","chain"}' if q else SERVERS),
                                     Callbacks='{"none","silent"}', MaxReq=3), api),
         ("sig", "AuthSigGen", sigk(ctx, '{"default","chain"}' if q else SERVERS), api),
+        # routes that carry BOTH gates: token class x signed/altered request class, each judged by its own spec
+        ("both", "AuthBothGen", bothk(ctx), api),
         # single calls over the full metadata product, then sequences with the store changing in between
         ("rpc1", "AuthRpcGen", dict(MaxCalls=1, MaxEnv=0, Kinds='{"unary","stream"}', CallSet="AllCalls"), rpc),
         ("rpc2", "AuthRpcGen", dict(MaxCalls=2, MaxEnv=1, Kinds='{"unary","stream"}', CallSet="CoreCalls"), rpc),
@@ -209,6 +235,14 @@ def vacuity(ctx, sig_cases, conc, need):
             miss.append("sig.pass.blocks-%d" % n)
     if tot.get("sig.corrupt-block-denied", 0) == 0:
         miss.append("sig.corrupt-block-denied")
+    # routes with both gates: requests failing none, one and both gates were answered, and the unauthorized
+    # callback of every kind was reached on such a route
+    for k in ("both.admit.pass.run", "both.admit.deny.403", "both.deny.pass.401", "both.deny.deny.401"):
+        if tot.get(k, 0) == 0:
+            miss.append(k)
+    for cb in ("silent", "header", "writes401"):
+        if tot.get("both.denied-callback-called.cb-" + cb, 0) == 0:
+            miss.append("both.denied-callback-called.cb-" + cb)
     if miss:
         raise core.Infra("vacuous run: never exercised: %s" % miss)
     nf = sum(1 for c in sig_cases if '"foreign":true' in c)
